@@ -298,6 +298,12 @@ def r5(chk):
         kw = {k.arg: norm(k.value) for k in fv.keywords}
         ok_ids = kw.get("contest_id") == f"{row}[0]" and kw.get("id") == f"{row}[1]" and norm(fv.args[0]) == rk["votes"] \
             and bool(rk["fresh"]) and kw.get("phantom") == "phantom"
+    # ... and every row after them yields a record: the row loop skips none (a row that *looks* like a header line -- a contest whose
+    # id is "Contest" -- is a ballot row all the same)
+    skips = [x for x in walk_local(l) if isinstance(x, (ast.Continue, ast.Break))] if l is not None else []
+    chk.ob("C18.R5", where, "no-row-skipped", l is not None and not skips,
+           "every row after the declared header lines becomes a record: the loop over the rows has no continue / break", node=skips[0] if skips else (l or fn),
+           strength="N")
     chk.ob("C18.R5", where, "header-skipped", bool(F.get("skip_ok")) and bool(F.get("iter_ok")),
            "the declared number of contest lines plus the count line are skipped: rows raire[skip+1:] with skip = int(raire[0][0])",
            node=l or fn)
